@@ -115,6 +115,26 @@ def macro_scoping_jobs():
              define_macro='rep')
     add('global-from-repeat-in-macro', el('div', hide(rep), el('r', define=[['global', 'last', py('-1')]]), use('rep'), '[',
                                           I('last'), ']', P('it')), [['seq', 'len', 0]])
+    # a local variable that hides a global stays in force across a macro that leaves that global alone
+    plain = el('p', 'm', define_macro='plain')
+    add('local-hides-global-across-macro', el('div', hide(plain), el('r', define=[['global', 'x', py('gv')]]),
+                                              el('q', P('x'), use('plain'), P('x'), define=[['local', 'x', py('gv + 5')]]), P('x')),
+        [['gv', 'int', 0]])
+    other = el('p', 'm', define_macro='other', define=[['global', 'y', py('gv + 1')]])
+    add('local-hides-global-macro-sets-another', el('div', hide(other), el('r', define=[['global', 'x', py('gv')]]),
+                                                    el('q', P('x'), use('other'), P('x'), P('y'), define=[['local', 'x', py('gv + 5')]]),
+                                                    P('x'), P('y')),
+        [['gv', 'int', 0]])
+    # a global defined inside a slot filler is in force in the rest of the macro and in the caller afterwards
+    slotted = el('p', '(', el('i', 'D', define_slot='s'), ')', P('g'), define_macro='slotted')
+    add('global-defined-in-filler', el('div', hide(slotted), use('slotted', el('b', 'F', fill_slot='s', define=[['global', 'g', py('gv')]])),
+                                       P('g')), [['gv', 'int', 0]])
+    add('global-redefined-in-filler', el('div', hide(slotted), el('r', define=[['global', 'g', py('gv')]]),
+                                         use('slotted', el('b', 'F', fill_slot='s', define=[['global', 'g', py('gv + 3')]])),
+                                         P('g')), [['gv', 'int', 0]])
+    # a global definition of several names at once, seen again after a macro
+    add('global-tuple-then-macro', el('div', hide(plain), el('r', define=[['global', ['a', 'b'], py('(gv, gv + 1)')]]),
+                                      P('a'), P('b'), use('plain'), P('a'), P('b')), [['gv', 'int', 0]])
     return out
 
 
@@ -166,7 +186,7 @@ def plan(tier, seed):
                 'the name pool %s with the name initially unbound / None / 5, define values int, repeat length 0..3 or '
                 'None; Scope: all sequences of %s operations (local set / global set / delete / copy) on a root, its copy '
                 'and the copy of the copy, keys from a 2-name pool, values unbounded ints; reserved-name predicate on %d '
-                'name shapes with up to %d symbolic code points; 8 macro programs (a global re-defined by a macro once / several times / in nested macros, new globals and locals of a macro, caller locals seen inside and restored, a global shadowing a builtin, a global set inside a repeat of a macro) compared with their hand-inlined equivalents for all bindings. Outside: deeper nestings, names documented as reserved but accepted (known finding).'
+                'name shapes with up to %d symbolic code points; 13 macro programs (a global defined inside a slot filler, a local hiding a global across a macro, a global definition of several names, a global re-defined by a macro once / several times / in nested macros, new globals and locals of a macro, caller locals seen inside and restored, a global shadowing a builtin, a global set inside a repeat of a macro) compared with their hand-inlined equivalents for all bindings. Outside: deeper nestings, names documented as reserved but accepted (known finding).'
                 % (len(jobs), names, '<= 2' if quick else '<= 3', len(shapes), 2 if quick else 3)),
         assumptions=['reference scope semantics in vlib/refsem.py (stack of local frames, globals, initial bindings)',
                      'probe ${show(n) | "U"} observes visibility (NameError -> U)',
